@@ -753,6 +753,14 @@ func runGS(args []string) []string {
 				}
 			}
 		}
+		// the public way to ask for the kind must say the same: IsErrorOfType holds for the kind
+		// the error carries and for no other (and for nothing when the run succeeded)
+		for n, t := range kindByName {
+			if gensign.IsErrorOfType(runErr, t) != (res == n) {
+				res = "other"
+				break
+			}
+		}
 		// merge agent events into the trace at the positions they were recorded
 		chal := "none"
 		for ci := nChalBefore; ci < len(chals); ci++ {
